@@ -11,6 +11,21 @@ def bridge_address(rep, rule, c, env, CYC):
         rep.bad(rule, site, "csr.addr formation", "csr_bus.addr must be driven combinationally")
         return False
     want = c.parse("Cat(cycle[:exact_log2(len(wb.sel))], wb.adr)", dict(env, cycle=CYC))
+    # named discrepancy: the number of index bits is *linear* in the number of granules (n - 1, n, ...) where it must be its
+    # base-2 logarithm: the two agree for at most two values of n
+    n_ = c.parse("len(wb.sel)", env)
+    for d_ in ds:
+        v = c.norm(d_.value)
+        if v[0] == 'call' and v[1] == ('name', 'Cat') and v[2] and v[2][0][0] == 'sub' and v[2][0][1] == CYC and v[2][0][2][0] == 'slice':
+            hi = v[2][0][2][2]
+            lin_in_n = hi == n_ or (hi[0] == 'lin' and any(t == n_ for t, _ in hi[2]) and
+                                    not any(x[0] == 'call' and x[1] in (('name', 'exact_log2'), ('name', 'ceil_log2')) for x in ir.walk(hi)))
+            if lin_in_n:
+                rep.bad(rule, site, "csr.addr == Cat(cycle[:log2(n)], wb.adr) (granule index in the low bits)",
+                        f"the sequencer contributes cycle[:{ir.show(hi)}] -- a bit count linear in the number of granules n; log2(n) bits are "
+                        "needed, and the slice silently clamps to the counter's width, so for n >= 4 the Wishbone address lands one bit "
+                        "too high", line=d_.lineno)
+                return False
     return check_dl(rep, rule, c, "csr.addr == Cat(cycle[:log2(n)], wb.adr) (granule index in the low bits)", ds, "0",
                     [("1", want)], env)
 
@@ -489,6 +504,12 @@ def align_up(rep, idx, rule):
             rep.ok(rule, site, "_align_up rounds up to a multiple of 2**alignment (closed form)", ir.show(r)[:100])
             rep.ok(rule, site, "_align_up leaves an already aligned value unchanged", "closed form", nontrivial=False)
             rep.ok(rule, site, "_align_up moves to the next multiple", "closed form", nontrivial=False)
+        elif any(x[0] == 'bin' and x[1] == '/' for x in ir.walk(r)) or \
+                any(x[0] == 'call' and ir.show(x[1]) in ("float", "math.ceil", "math.floor", "round", "ceil", "floor") and
+                    any(y[0] == 'bin' and y[1] == '/' for y in ir.walk(x)) for x in ir.walk(r)):
+            rep.bad(rule, site, "_align_up result", f"{ir.show(r)[:100]} goes through true division: addresses are arbitrary-precision "
+                    "integers, a float quotient is exact only below 2**53, so in a wide map the rounded address can come out *below* the "
+                    "value it was computed from")
         else:
             rep.unk(rule, site, "_align_up result", f"unrecognised shape {ir.show(r)[:120]}")
 
@@ -812,3 +833,46 @@ def param_refusals(rep, rule, idx, only=None):
             rep.unk(rule, c.fi.site, f"{what} (else {exc})", f"cannot decide: {e}")
             continue
     return n
+
+
+def arith_refusal_atoms(rep, rule, idx, spec, allowed, allow_if=None, what=None):
+    """No *extra* arithmetic refusal: every arithmetic test (%, //, &, <<, *) that guards a raise of `spec` is one of the
+    documented ones.  A test with the same operators on other quantities (an address checked against the per-call alignment
+    instead of the map's) refuses legal calls: a violation.  Other unknown arithmetic is undecided."""
+    from .common import get_fn, raise_sites, _formula, _arith_atoms
+    c = get_fn(idx, spec)
+    site = c.fi.site
+    what = what or f"{spec.split(':')[-1]}: arithmetic refusals are the documented ones"
+    allowed_atoms = []
+    local = {k: v for k, v in c.t.final_env.items() if isinstance(v, tuple) and v and v[0] not in ('localfn', 'localproc', 'listacc')
+             and k not in c.fi.params}
+    for t in allowed:
+        allowed_atoms += _arith_atoms(c, c.eng.cond(c.parse(t, local)))
+    ARITH = ('%', '//', '&', '|', '^', '<<', '>>', '*', '**', 'ceildiv', 'bit_length')
+
+    def sig(ops):
+        return tuple(o for o in ops if o in ARITH)
+    ok_keys = {a for _, a, _ in allowed_atoms}
+    ok_ops = {sig(o) for _, _, o in allowed_atoms}
+    n = 0
+    clean = True
+    for conds, e, loops, ln, via in raise_sites(c):
+        try:
+            f = _formula(c, conds)
+        except Exception:
+            continue
+        for names, a, ops in _arith_atoms(c, f):
+            n += 1
+            if a in ok_keys:
+                continue
+            air = c.eng.atom_ir.get(a)
+            if allow_if is not None and air is not None and allow_if(air):
+                continue
+            clean = False
+            if sig(ops) in ok_ops:
+                rep.bad(rule, site, what, f"`raise {e}` at line {ln} is guarded by `{a}`: the documented test of that shape is on other quantities "
+                        f"({sorted(ok_keys)[0][:70]}), so calls the documentation accepts are refused", line=ln)
+            else:
+                rep.unk(rule, site, what, f"`raise {e}` at line {ln} is guarded by the arithmetic test `{a}`, which is not one of the documented refusals")
+    if clean:
+        rep.ok(rule, site, what, f"{n} arithmetic atom(s) in refusal conditions, all documented", nontrivial=n > 0)
